@@ -10,6 +10,7 @@ the implementation's own output for ALL sizes and ALL k (this is what covers siz
 not kernel-checked; the compiled Lean driver additionally runs the proved-sound checker on them).
 """
 import binascii
+import bisect
 import json
 import os
 import sys
@@ -55,6 +56,19 @@ def node_of_slow(slot, k):
             return i
         start += size
     return None
+
+
+def counts_by_definition(sorted_slots, k):
+    """per-node counts from the definition of the contiguous assignment: node i owns [start_i, start_{i+1}),
+    sizes TOTAL//k + 1 for the first TOTAL % k nodes and TOTAL//k for the rest"""
+    sn, r = divmod(TOTAL, k)
+    counts, start, lo = [], 0, 0
+    for i in range(k):
+        start += sn + 1 if i < r else sn
+        hi = bisect.bisect_left(sorted_slots, start)
+        counts.append(hi - lo)
+        lo = hi
+    return counts
 
 
 def regen(ctx):
@@ -143,7 +157,7 @@ def run(ctx):
             kv = dict(x.split("=", 1) for x in a.split())
             tags = [bytes.fromhex(h) for h in kv["tags"].split(",")]
             slots = [int(x) for x in kv["slots"].split(",")]
-            go_tables[n] = (tags, slots)
+            go_tables[n] = (tags, slots, sorted(redis_slot_of_tag(t) for t in tags))
             if len(tags) != n:
                 viol(f"FindTags({n}) returned {len(tags)} tags", {"kind": "count", "n": n}, op, a)
             real = [redis_slot_of_tag(t) for t in tags]
@@ -161,9 +175,7 @@ def run(ctx):
             kv = {x.split("=")[0]: int(x.split("=")[1]) for x in a.split()}
             # recompute the counts independently from the Go table (Redis slots, definition of the assignment)
             if n in go_tables:
-                counts = [0] * k
-                for t in go_tables[n][0]:
-                    counts[node_of(redis_slot_of_tag(t), k)] += 1
+                counts = counts_by_definition(go_tables[n][2], k)
                 if (min(counts), max(counts)) != (kv["min"], kv["max"]):
                     viol(f"n={n} k={k}: per-node counts via SlotToNode/TagSlot ({kv['min']}..{kv['max']}) differ from the "
                          f"definition ({min(counts)}..{max(counts)})", {"kind": "counts", "n": n}, op, a)
